@@ -770,6 +770,11 @@ func (s *State) Commit(repo gitstore.Storer, commitMessage string, createRSLEntr
 				return repo.ResetDueToError(err, PolicyStagingRef, originalCommitID)
 			}
 
+			// The reference did not exist before, remove it again
+			if delErr := repo.DeleteReference(PolicyStagingRef); delErr != nil {
+				return errors.Join(err, delErr)
+			}
+
 			return err
 		}
 	}
@@ -865,6 +870,11 @@ func Apply(ctx context.Context, repo gitstore.Storer, signRSLEntry bool) error {
 	if err := rsl.NewReferenceEntry(PolicyRef, policyStagingTip).Commit(repo, signRSLEntry); err != nil {
 		if !policyTip.IsZero() {
 			return repo.ResetDueToError(err, PolicyRef, policyTip)
+		}
+
+		// The reference did not exist before, remove it again
+		if delErr := repo.DeleteReference(PolicyRef); delErr != nil {
+			return errors.Join(err, delErr)
 		}
 
 		return err
@@ -1039,7 +1049,12 @@ func ReconcileStaging(repo gitstore.Storer, signCommit bool) error {
 			return err
 		}
 
-		return rsl.NewReferenceEntry(PolicyStagingRef, policyTip).Commit(repo, signCommit)
+		if err := rsl.NewReferenceEntry(PolicyStagingRef, policyTip).Commit(repo, signCommit); err != nil {
+			// Do not leave staging ahead of its latest RSL entry
+			return repo.ResetDueToError(err, PolicyStagingRef, policyStagingTip)
+		}
+
+		return nil
 	}
 
 	// Diverged
